@@ -4,8 +4,8 @@ n=$1; shift
 S=/tmp/seedrepo_$$; rm -rf $S; cp -a /repo $S
 git -C $S apply /work/seedrun/seeded/$n/patch.diff || { echo "$n: PATCH DOES NOT APPLY"; rm -rf $S; exit; }
 for id in "$@"; do
-  VERIF_REPO=$S /work/seedrun/check $id > /tmp/st_$n_$id.log 2>&1
+  VERIF_REPO=$S /work/seedrun/check $id > /tmp/st_${n}_${id}.log 2>&1
   rc=$?
-  echo "$n on $id: exit=$rc viol=$(grep -c '^VIOLATION' /tmp/st_$n_$id.log) :: $(grep -A1 '^VIOLATION' /tmp/st_$n_$id.log | grep -v '^VIOLATION\|^--' | head -2 | cut -c1-150 | tr '\n' '|')"
+  echo "$n on $id: exit=$rc viol=$(grep -c '^VIOLATION' /tmp/st_${n}_${id}.log) :: $(grep -A1 '^VIOLATION' /tmp/st_${n}_${id}.log | grep -v '^VIOLATION\|^--' | head -2 | cut -c1-150 | tr '\n' '|')"
 done
 rm -rf $S
